@@ -266,6 +266,21 @@ def config_lattice(tier):
 
 
 def _one(args):
+    """one configuration; an exception escaping from production code is returned as a finding, not raised"""
+    try:
+        return _one_inner(args)
+    except Exception as ex:
+        import traceback
+
+        from ..core import raised_in_production
+
+        if not raised_in_production(traceback.format_exc()):
+            raise
+        gc, tier = args
+        return dict(gc=gc, raised=f"{type(ex).__name__}: {str(ex)[:160]}", pw=[], sw=[], rg=[], info=dict(kept=0, determinate=0, maxrel=0.0), n_pw=0, n_sw=0, n_rg=0, kept_rg=0, quad=None)
+
+
+def _one_inner(args):
     gc, tier = args
     m = 6 if tier == "quick" else 8
     a = (np.arange(m) + 0.5) / m
@@ -298,6 +313,8 @@ def run(ctx):
         worst = max(worst, r["info"]["maxrel"])
         det += r["info"]["determinate"]
         kept += r["info"]["kept"]
+        if r.get("raised"):
+            ctx.violation("no_exception_from_geometry_or_integral", {"kind": "raise", "gc": gc, "tier": ctx.tier}, "throw / mcintegral sequences on one geometry object work", r["raised"])
         for c, u, e, o in r["pw"]:
             ctx.violation(c, {"kind": "pw", "gc": gc, "u": u}, e, o)
         for c, u, e, o in r["sw"]:
@@ -322,6 +339,9 @@ def run(ctx):
 def replay(case):
     gc = case["gc"]
     k = case["kind"]
+    if k == "raise":
+        r = _one((gc, case.get("tier", "quick")))
+        return [("no_exception_from_geometry_or_integral", "no exception", r["raised"])] if r.get("raised") else []
     if k == "pw":
         U = np.array(case["u"], dtype=float).reshape(4, 1)
         v, _, _, _ = judge_pointwise(gc, U)
